@@ -488,6 +488,12 @@ class Ev:
                 if isinstance(idx, BV) and idx.is_const():
                     return base.items[idx.value()]
             raise Unsupported(f"subscript of {type(base).__name__}")
+        if isinstance(e, (ast.DictComp, ast.GeneratorExp, ast.ListComp, ast.SetComp)) and len(e.generators) == 1 and not e.generators[0].is_async:
+            rows = self._const_rows(e.generators[0], env, module)
+            if rows is not None:
+                if isinstance(e, ast.DictComp):
+                    return DictV([(self.ev(e.key, r, module), self.ev(e.value, r, module)) for r in rows])
+                return Tup([self.ev(e.elt, r, module) for r in rows])
         if isinstance(e, (ast.SetComp, ast.ListComp)):
             return self.comprehension(e, env, module)
         if isinstance(e, ast.Call):
@@ -495,6 +501,41 @@ class Ev:
         if isinstance(e, ast.JoinedStr):
             return Py("<fstring>")
         raise Unsupported(f"expression {type(e).__name__}: {unparse(e)[:60]}")
+
+    def _const_rows(self, g, env, module):
+        """Environments for the iterations of a comprehension over a constant iterable (module-level tuple/list/dict/enum), or None."""
+        if any(isinstance(x, ast.Name) and x.id in env for x in ast.walk(g.iter)):
+            return None
+        try:
+            items = self.repo._fold_iter(module, g.iter, None, 0)
+        except (NotConst, AnalysisError):
+            return None
+        if len(items) > 64:
+            return None
+        rows = []
+        for it in items:
+            env2 = dict(env)
+
+            def bind(t, v):
+                if isinstance(t, ast.Name):
+                    env2[t.id] = self.lift(v)
+                elif isinstance(t, (ast.Tuple, ast.List)) and isinstance(v, (tuple, list)) and len(v) == len(t.elts):
+                    for tt, vv in zip(t.elts, v):
+                        bind(tt, vv)
+                else:
+                    raise Unsupported("comprehension target")
+
+            bind(g.target, it)
+            ok = True
+            for f in g.ifs:
+                c = self.cond(self.ev(f, env2, module))
+                if c == FALSE:
+                    ok = False
+                elif c != TRUE:
+                    return None  # symbolic filter: the set-valued comprehension path handles it
+            if ok:
+                rows.append(env2)
+        return rows
 
     def comprehension(self, e, env, module):
         if len(e.generators) != 1:
@@ -728,6 +769,14 @@ class Ev:
             if isinstance(v, Obj) and ci is not None:
                 return BoolV(TRUE if v.cls == ci.name else FALSE)
             raise Unsupported("isinstance on a non-symbol")
+        if d == "sum" and 1 <= len(args) <= 2 and not kws:
+            seq = self.ev(args[0], env, module)
+            if isinstance(seq, Tup):
+                acc = self.ev(args[1], env, module) if len(args) == 2 else BV.const(0)
+                for it in seq.items:
+                    acc = self.binop(ast.Add(), acc, it)
+                return acc
+            raise Unsupported("sum over a symbolic sequence")
         if d == "len":
             v = self.ev(args[0], env, module)
             if isinstance(v, Sym):
@@ -828,6 +877,9 @@ class Ev:
             rets = outs["returns"]
             if outs["fall"] != FALSE:
                 rets.append((outs["fall"], Py(None)))
+            # path conditions of the exits are mutually exclusive and exhaustive: under first-match reading the last one is the default
+            if len(rets) > 1 and rets[-1][0] != TRUE:
+                rets[-1] = (TRUE, rets[-1][1])
             return self.merge(rets)
         finally:
             self.depth -= 1
@@ -967,6 +1019,10 @@ class Ev:
     def bind(self, target, v, env):
         if isinstance(target, ast.Name):
             env[target.id] = v
+        elif isinstance(target, ast.Subscript) and isinstance(target.value, ast.Name) and isinstance(env.get(target.value.id), DictV):
+            k = self.ev(target.slice, env, self.module)
+            d = env[target.value.id]
+            env[target.value.id] = DictV([(kk, vv) for kk, vv in d.items if not _same(kk, k)] + [(k, v)])
         elif isinstance(target, (ast.Tuple, ast.List)):
             if isinstance(v, Tup) and len(v.items) == len(target.elts):
                 for t, x in zip(target.elts, v.items):
@@ -988,6 +1044,10 @@ class Ev:
             return alts[0][1]
         if all(_same(alts[0][1], v) for _, v in alts[1:]):
             return alts[0][1]
+        # alternatives that are all tuples of one arity: a tuple of merged components (so that `a, b = f(...)` works when
+        # f returns the tuple from several branches)
+        if all(isinstance(v, Tup) for _, v in alts) and len({len(v.items) for _, v in alts}) == 1:
+            return Tup([self.merge([(c, v.items[i]) for c, v in alts]) for i in range(len(alts[0][1].items))])
         # two constant bit vectors selected by one boolean source -> a bit vector with that source as a bit
         if len(alts) == 2 and all(isinstance(v, BV) and v.is_const() for _, v in alts):
             c = alts[0][0]
